@@ -99,7 +99,7 @@ def make_twin(path):
     """copy of the harness with every `post: _` replaced by `post: False`"""
     src = open(path).read()
     twin = re.sub(r"post:\s*_\s*$", "post: False", src, flags=re.M)
-    d = tempfile.mkdtemp(prefix="xh_twin_", dir=os.path.join(env.VERIF, ".venv"))
+    d = tempfile.mkdtemp(prefix="xh_twin_", dir=env.scratch())
     tp = os.path.join(d, os.path.basename(path))
     open(tp, "w").write(twin)
     return tp
